@@ -29,10 +29,12 @@ let () = main_loop (fun toks ->
   | fl :: nm :: ops when String.length fl = 2 && fl.[0] = 'F' && String.length nm >= 2 && String.sub nm 0 2 = "N=" ->
       let names = List.map name_of_string (split_on ',' (String.sub nm 2 (String.length nm - 2))) in
       let nth_name i = List.nth names (int_of_string i) in
+      let okn i = (match int_of_string_opt i with Some k -> k >= 0 && k < List.length names && valid_name (List.nth names k) | None -> false) in
       let d = ref [] in
       let outs = List.map (fun o ->
         let a = split_on ':' o in
         let r = (match a with
+          | [("S"|"L"|"X"|"K"); i] | [("S"|"L"|"X"|"K"); i; _] | [("S"|"L"|"X"|"K"); i; _; _] | [("S"|"L"|"X"|"K"); i; _; _; _] when not (okn i) -> "BAD-OP"
           | ["S"; i; t; h] ->
               let t = z_of_string t and data = bytes_of_hex h in
               d := save (nth_name i) t data !d; "S[" ^ writes_str t data ^ "]"
